@@ -17,10 +17,14 @@ Import ListNotations.
     (N-Triples: hypothesis; TSV: proved below), ANY partition [lss] of the
     lines into files, read in list order through the multi-file yielder, plain
     or gz / xz compressed (codec = identity on content: [stored_as]), delivers
-    the triple stream of the single raw string. *)
+    the triple stream of the single raw string -- provided blank lines are
+    harmless: the reader is blank-silent (N-Triples: hypothesis) or there is
+    no blank line (TSV: a blank line in a *file* crashes the reader, finding
+    C08-F5, while the raw-string line reader drops it). *)
 Theorem C08_partition_invisible :
   forall pyfloat read_nt read_ttl gunzip unxz unzip rdf_parse fmt read o o' cm lss stored,
-    line_family pyfloat read_nt fmt read -> line_compositional read -> cm_plain cm ->
+    line_family pyfloat read_nt fmt read -> line_compositional read ->
+    blanks_harmless read (List.concat lss) -> cm_plain cm ->
     Forall (Forall line_ok) lss ->
     Forall2 (stored_as gunzip unxz cm) (map render_lines lss) stored ->
     rd_stream (channel pyfloat read_nt read_ttl gunzip unxz unzip rdf_parse o fmt cm (SFiles stored))
@@ -32,7 +36,7 @@ Print Assumptions C08_partition_invisible.
 (** one file, plain or compressed *)
 Theorem C08_partition_invisible_file :
   forall pyfloat read_nt read_ttl gunzip unxz unzip rdf_parse fmt read o o' cm ls st,
-    line_family pyfloat read_nt fmt read -> line_compositional read -> cm_plain cm ->
+    line_family pyfloat read_nt fmt read -> line_compositional read -> blanks_harmless read ls -> cm_plain cm ->
     Forall line_ok ls -> stored_as gunzip unxz cm (render_lines ls) st ->
     rd_stream (channel pyfloat read_nt read_ttl gunzip unxz unzip rdf_parse o fmt cm (SFile st))
     = rd_stream (channel pyfloat read_nt read_ttl gunzip unxz unzip rdf_parse o' fmt None (SRaw (render_lines ls))).
@@ -42,7 +46,7 @@ Print Assumptions C08_partition_invisible_file.
 (** the members of one zip archive, in [namelist()] order *)
 Theorem C08_partition_invisible_zip :
   forall pyfloat read_nt read_ttl gunzip unxz unzip rdf_parse fmt read o o' archive lss,
-    line_family pyfloat read_nt fmt read -> line_compositional read ->
+    line_family pyfloat read_nt fmt read -> line_compositional read -> blanks_harmless read (List.concat lss) ->
     Forall (Forall line_ok) lss -> archive_holds unzip archive lss ->
     rd_stream (channel pyfloat read_nt read_ttl gunzip unxz unzip rdf_parse o fmt (Some c_ZIP) (SFile archive))
     = rd_stream (channel pyfloat read_nt read_ttl gunzip unxz unzip rdf_parse o' fmt None
@@ -54,6 +58,7 @@ Print Assumptions C08_partition_invisible_zip.
 Theorem C08_partition_invisible_zips :
   forall pyfloat read_nt read_ttl gunzip unxz unzip rdf_parse fmt read o o' archives lsss,
     line_family pyfloat read_nt fmt read -> line_compositional read ->
+    blanks_harmless read (List.concat (List.concat lsss)) ->
     Forall (Forall (Forall line_ok)) lsss -> Forall2 (archive_holds unzip) archives lsss ->
     rd_stream (channel pyfloat read_nt read_ttl gunzip unxz unzip rdf_parse o fmt (Some c_ZIP) (SFiles archives))
     = rd_stream (channel pyfloat read_nt read_ttl gunzip unxz unzip rdf_parse o' fmt None
@@ -66,18 +71,19 @@ Theorem C08_tsv_line_compositional : forall pyfloat, line_compositional (read_ts
 Proof. exact read_tsv_compositional. Qed.
 Print Assumptions C08_tsv_line_compositional.
 
-(** hence, for TSV, with no hypothesis on any reader *)
+(** hence, for TSV documents without blank lines, with no hypothesis on any reader *)
 Theorem C08_partition_invisible_tsv :
   forall pyfloat read_nt read_ttl gunzip unxz unzip rdf_parse o o' cm lss stored,
+    Forall (fun l => nonblank l = true) (List.concat lss) ->
     cm_plain cm -> Forall (Forall line_ok) lss ->
     Forall2 (stored_as gunzip unxz cm) (map render_lines lss) stored ->
     rd_stream (channel pyfloat read_nt read_ttl gunzip unxz unzip rdf_parse o (Str "tsv_spo") cm (SFiles stored))
     = rd_stream (channel pyfloat read_nt read_ttl gunzip unxz unzip rdf_parse o' (Str "tsv_spo") None
                          (SRaw (render_lines (List.concat lss)))).
 Proof.
-  intros pyfloat read_nt read_ttl gunzip unxz unzip rdf_parse o o' cm lss stored.
+  intros pyfloat read_nt read_ttl gunzip unxz unzip rdf_parse o o' cm lss stored Hnb.
   exact (partition_invisible_files pyfloat read_nt read_ttl gunzip unxz unzip rdf_parse _ _ o o' cm lss stored
-                                   (Fam_tsv pyfloat read_nt) (read_tsv_compositional pyfloat)).
+                                   (Fam_tsv pyfloat read_nt) (read_tsv_compositional pyfloat) (or_intror Hnb)).
 Qed.
 Print Assumptions C08_partition_invisible_tsv.
 
@@ -279,6 +285,20 @@ Lemma C08_at_sign_plain_literal_refuted :
     turn_literal (RL lex None None) = inl (MLit lex c_LANG_STRING_TYPE)
     /\ parse_literal (Q :: lex ++ [Q]) = inl (MLit lex c_STRING_TYPE).
 Proof. exists (Str "user@example.org"). split; vm_compute; reflexivity. Qed.
+
+(** C08-F5: the TSV reader is not blank-silent -- a discarded line (blank
+    lines included) is logged through a call that does not fit [log_msg]'s
+    signature: TypeError.  The raw-string line reader drops blank lines, the
+    file readers deliver them: the same TSV text works as a raw string and
+    crashes as a file. *)
+Lemma C08_tsv_blank_line_refuted :
+  exists doc,
+    rd_stream (ex_chan (Str "tsv_spo") None (SFile doc)) = inr CEType
+    /\ exists ms, rd_stream (ex_chan (Str "tsv_spo") None (SRaw doc)) = inl ms /\ ms <> [].
+Proof.
+  exists (render_lines [tsv_line_of (AT (AIri (Str "http://e/a")) (Str "http://e/p") (AN (AIri (Str "http://e/b")))); []]).
+  split; [vm_compute; reflexivity|]. eexists. split; [vm_compute; reflexivity | discriminate].
+Qed.
 
 (** C08-F3: compression_mode zip with a raw string or an rdflib Graph object
     is accepted by the constructor and then fails with TypeError *)
